@@ -214,6 +214,9 @@ fn emit(spec: &ScanSpec, subject_expr: &str, level: u32, indent: usize, out: &mu
         out.push_str(&format!("{}    attr ({}) {}\n", pad, n, attrs.join(", ")));
         if let Some((gi, inner)) = &spec.nested[ai] {
             emit(inner, &format!("${}", gi), level + 1, indent + 2, out, counter);
+            // the arm's own groups are still the arm's own after the nested scan
+            let again: Vec<String> = (0..groups).map(|g| format!("again{} = ${}", g, g)).collect();
+            out.push_str(&format!("{}    attr ({}) {}\n", pad, n, again.join(", ")));
         }
         out.push_str(&format!("{}  }}\n", pad));
     }
@@ -263,7 +266,14 @@ fn observe_steps(g: &OGraph) -> Result<Vec<Step>, String> {
         let mut k = 0;
         loop {
             match n.attrs.get(&format!("g{}", k)) {
-                Some(MVal::Str(s)) => groups.push(s.clone()),
+                Some(MVal::Str(s)) => {
+                    if let Some(again) = n.attrs.get(&format!("again{}", k)) {
+                        if again != &MVal::Str(s.clone()) {
+                            return Err(format!("${} read {:?} before the nested scan of arm {} and {:?} after it", k, s, arm, again));
+                        }
+                    }
+                    groups.push(s.clone())
+                }
                 Some(other) => return Err(format!("group value is not a string: {:?}", other)),
                 None => break,
             }
